@@ -49,7 +49,9 @@ ASSUMPTIONS = [
     "signal delivery is modelled as: wake-up byte written and Python-level handler run at the same instant, at an agenda time",
     "select reports ready descriptors in the order of its input list and is otherwise fair; the clock only advances inside "
     "select or between requests (the main thread's own statements take no time); clock readings are integer ticks",
-    "event objects are truthy; encoding pinned to utf-8; keys named with Keynames.BYTES so that every returned key shows "
+    "event objects are truthy by default (a user-defined event class that is falsy - __len__ 0 / __bool__ False - is not "
+    "exercised: `if event: return event` in _send would drop it on the code as it is; the library's own event classes, incl. an "
+    "empty PasteEvent used as a trigger's event type, are); encoding pinned to utf-8; keys named with Keynames.BYTES so that every returned key shows "
     "the bytes it consumed (naming itself is C03/C20)",
     "key segmentation (events.get_key) is a parameter of the Lean theorems; its own correctness is C03",
     "a scheduled event is deliverable iff when < time.time() (the code's test; 'never before its time' allows delivery from "
@@ -100,6 +102,31 @@ class Ev(cevents.Event):
 
     def __repr__(self):
         return "<Ev %s%d>" % (self.kind, self.id)
+
+
+class TPaste(cevents.PasteEvent):
+    """the library's own PasteEvent, with no keypresses, used as the event type of a trigger: whatever truth value the
+    library gives its events (a __len__ on PasteEvent makes an empty one falsy), a triggered event is delivered exactly once"""
+
+    def __init__(self, id, kind):
+        super().__init__()
+        self.id, self.kind = id, kind
+
+    def __repr__(self):
+        return "<TPaste %s%d>" % (self.kind, self.id)
+
+
+EVS = (Ev, TPaste)
+
+
+def is_paste(r):
+    """a paste of keypresses read from the stream (not a PasteEvent used as a trigger's event type)"""
+    return isinstance(r, cevents.PasteEvent) and not isinstance(r, TPaste)
+
+
+def mk_ev(id, kind):
+    """event types of the triggers alternate between a plain Event subclass and the library's PasteEvent"""
+    return TPaste(id, kind) if id % 3 == 0 else Ev(id, kind)
 
 
 class SEv(cevents.ScheduledEvent):
@@ -330,7 +357,7 @@ class Env:
         finally:
             self.entering = False
         self.ctor_calls = {}           # eid -> CtorCall (callbacks parked in the event constructor)
-        self.trig = [self.inp.event_trigger(lambda id, k=k: (self.ctor_gate(), Ev(id, "q%d" % k))[1]) for k in range(2)]
+        self.trig = [self.inp.event_trigger(lambda id, k=k: (self.ctor_gate(), mk_ev(id, "q%d" % k))[1]) for k in range(2)]
         # GIL model of list.sort: only if the scheduled events really are a plain list attribute that can be replaced
         try:
             if type(self.inp.queued_scheduled_events) is list and not self.inp.queued_scheduled_events:
@@ -340,7 +367,7 @@ class Env:
         except Exception:  # noqa: BLE001
             self.uninstrumented.add("queued_scheduled_events is not a settable list: no sort to preempt")
         self.sched = self.inp.scheduled_event_trigger(lambda when: (self.ctor_gate(), SEv(when, self.cur_sched_id()))[1])
-        self.ts = [self.inp.threadsafe_event_trigger(lambda id, p=p: (self.ctor_gate(), Ev(id, "i%d" % p))[1])
+        self.ts = [self.inp.threadsafe_event_trigger(lambda id, p=p: (self.ctor_gate(), mk_ev(id, "i%d" % p))[1])
                    for p in range(case["npipes"])]
 
     # ---- fake OS ----
@@ -658,7 +685,7 @@ class Env:
 
         def evs(x):
             out = list(x)
-            if not all(isinstance(e, Ev) for e in out):
+            if not all(isinstance(e, EVS) for e in out):
                 raise TypeError
             return out
         return dict(u=rd("unprocessed_bytes", as_bytes), o=bytes(self.osbuf), g=rd("sigints", len),
@@ -695,7 +722,7 @@ class Env:
                 if observer:
                     observer.end(self, "raised", e)
                 continue
-            if isinstance(r, cevents.PasteEvent) and sum(len(k) for k in r.events if isinstance(k, bytes)) > self.total_bytes:
+            if is_paste(r) and sum(len(k) for k in r.events if isinstance(k, bytes)) > self.total_bytes:
                 # a paste holding more bytes than the whole script delivers: say so briefly instead of dragging megabytes along
                 out.append("p:!%d-bytes-of-%d" % (sum(len(k) for k in r.events if isinstance(k, bytes)), self.total_bytes))
                 if observer:
@@ -728,11 +755,11 @@ def enc_result(r):
         return "n"
     if isinstance(r, bytes):
         return "k:" + hx(r)
-    if isinstance(r, cevents.PasteEvent):
+    if is_paste(r):
         return "p:" + ",".join(hx(k) for k in r.events)
     if isinstance(r, SEv):
         return "s:%d" % r.id
-    if isinstance(r, Ev):
+    if isinstance(r, EVS):
         return "%s:%d" % (r.kind[0], r.id)
     if isinstance(r, cevents.SigIntEvent):
         return "g"
@@ -1092,7 +1119,7 @@ class Ledger:
         if how == "returned" and r is not None:
             if isinstance(r, bytes):
                 self.R += r
-            elif isinstance(r, cevents.PasteEvent):
+            elif is_paste(r):
                 for k in r.events:
                     if isinstance(k, bytes):
                         self.R += k
@@ -1114,7 +1141,7 @@ class Ledger:
                                   "not in time order" % (r.id, r.when, first[2], first[0],
                                                          "earlier" if first[1] < mine[0][1] else "later"), fp20)
                     self.sched_ret.add(r.id)
-            elif isinstance(r, Ev):
+            elif isinstance(r, EVS):
                 self.ret.setdefault(r.kind, []).append(r.id)
             elif isinstance(r, cevents.SigIntEvent):
                 self.sig_out += 1
@@ -1191,13 +1218,13 @@ class Ledger:
         thr = self.case["thr"]
         first = next((d for d in reads if d != 0), None)
         if first is not None and thr is not None and len(first) > thr and how == "returned":
-            if not isinstance(r, cevents.PasteEvent):
+            if not is_paste(r):
                 self.fail("a read of %d bytes (> paste_threshold %d) did not come back as a paste event" % (len(first), thr))
             elif first not in b"".join(r.events):
                 self.fail("paste event does not hold the burst's keypresses in order")
         # -- WHICH keypresses a paste holds: nothing can arrive once the first read of a request has happened (the paste loop
         #    never waits), so everything the paste returned plus whatever is still held was available to it as one burst
-        if how == "returned" and isinstance(r, cevents.PasteEvent) and all(isinstance(k, bytes) for k in r.events):
+        if how == "returned" and is_paste(r) and all(isinstance(k, bytes) for k in r.events):
             burst = b"".join(r.events) + (h["u"] or b"") + h["o"]
             ideal = ideal_segments(burst)
             if ideal is not None and list(r.events) != ideal:
@@ -1624,8 +1651,8 @@ def real_mixed(seed, sigint=True, in_thread=False):
         nonlocal got_sig, pastes
         inp = cinput.Input(in_stream=_FdStream(sl), keynames="bytes", sigint_event=sigint and not in_thread)
         with inp:
-            ts_cb = inp.threadsafe_event_trigger(lambda id: Ev(id, "i0"))
-            q_cb = inp.event_trigger(lambda id: Ev(id, "q0"))
+            ts_cb = inp.threadsafe_event_trigger(lambda id: mk_ev(id, "i0"))
+            q_cb = inp.event_trigger(lambda id: mk_ev(id, "q0"))
             s_cb = inp.scheduled_event_trigger(lambda when: SEv(when, 7))
             q_cb(id=100)
             when = real_time.time() + 0.03
@@ -1668,7 +1695,7 @@ def real_mixed(seed, sigint=True, in_thread=False):
                         continue
                     if isinstance(r, bytes):
                         got_bytes.extend(r)
-                    elif isinstance(r, cevents.PasteEvent):
+                    elif is_paste(r):
                         pastes += 1
                         for k in r.events:
                             got_bytes.extend(k)
@@ -1676,7 +1703,7 @@ def real_mixed(seed, sigint=True, in_thread=False):
                         got_s.append(r.id)
                         if now < r.when:
                             problems.append("scheduled event returned %.4f s before its time" % (r.when - now))
-                    elif isinstance(r, Ev):
+                    elif isinstance(r, EVS):
                         (got_ts if r.kind == "i0" else got_q).append(r.id)
                     elif isinstance(r, cevents.SigIntEvent):
                         got_sig += 1
